@@ -19,8 +19,12 @@
    * analyze.rs `AnalyzeContext::make_use_of`: per-unit `uses` cache consulted before the
      shared map; `get_analysis`: a `Done` unit with `has_circular_dependency` yields a circular
      error at the position of the use.
-   * who discards a circular error: design_unit.rs `analyze_use_clause` (`let _ = name_resolve`)
-     for a use clause that is not a selected name.  A request carries that `swallow` flag.
+   * who discards a circular error (a request carries that `swallow` flag):
+     - design_unit.rs `analyze_use_clause` (`let _ = name_resolve`) for a use clause that is not
+       a selected name — until fix 052b116 (finding F16/F26); since then such a request propagates;
+     - subprogram.rs `resolve_signature` (the Unknown error of an earlier type mark of a
+       signature hides the circular error of a later one) and `subprogram_specification`
+       (invalid formals hide the circular error of the return type): still present.
    * `cbo` (cache before outcome) = true is the code before commit 6e7f4e9 (finding F4): the
      unit was entered into `uses` before the outcome of the registration was known.
 
@@ -345,6 +349,9 @@ Definition bad (deps : list (list req)) (v : nat) : Prop :=
 (* no request whose circular error would be discarded can see one *)
 Definition swallow_safe (deps : list (list req)) : Prop :=
   forall u v, In (v, true) (nth u deps []) -> ~ bad deps v.
+(* no request discards a circular error *)
+Definition no_swallow (deps : list (list req)) : Prop :=
+  forall u v sw, In (v, sw) (nth u deps []) -> sw = false.
 (* the result of unit u: the index of its first request whose target is bad, if any *)
 Definition circ_spec (deps : list (list req)) (u : nat) (c : option nat) : Prop :=
   match c with
